@@ -159,6 +159,7 @@ bool exec_spline(ExecCtx &c) {
 #ifdef SIM_EXACT
               Fn expect = fn_of(s);
 #endif
+              sim::g_cur->note = 2;
               libcall(out, [&] { d = s; });
               if ((out.status == ST_BSPLINE || out.status == ST_OTHER_EXC) && !fault_fired())
                 add_violation(c, "C03", "valid-call-threw", "assignment threw " + std::string(status_name(out.status)),
